@@ -143,6 +143,10 @@ class _Builder:
             return False
         return True
 
+    def is_top_ref(self, ref: dict) -> bool:
+        """Does this binding denote the top-level package itself (directly, or re-exported under another name)?"""
+        return ref["k"] in ("pkgroot", "opaque") or (ref["k"] == "module" and ref["idx"] == self.top_idx)
+
     def climb(self) -> int:
         """Extra packages a relative import climbs beyond the nearest common one (`from ...sub.c import X` inside pkg/sub/deep)."""
         return self.draw(st.integers(1, 2)) if self.chance(20) else 0
@@ -340,8 +344,14 @@ class _Builder:
                 body.append({"t": "attr", "name": n, "value": self.value(allow_none)})
                 used.add(n)
             elif what == 8 and depth < 2:
-                pool = CLS_NESTED + (CLS_NESTED_SHADOWING if self.chance(50) else [])
-                n = self.fresh(pool, used | self.classes[cid]["global_refs"])
+                taken = used | self.classes[cid]["global_refs"] | {name} | {self.classes[k]["name"] for k in chain}
+                # a third of the nested classes take the name of a class already bound at module level (defined or
+                # imported there): the name a wrong scope would pick for `class Child(<that name>)` further down
+                shadowable = [n for n, r in genv.items() if r["k"] == "class" and n not in taken]
+                if shadowable and self.chance(35):
+                    n = self.pick(shadowable)
+                else:
+                    n = self.fresh(CLS_NESTED + (CLS_NESTED_SHADOWING if self.chance(30) else []), taken)
                 if n is None:
                     continue
                 item, ncid = self.klass(n, genv, depth + 1, allow_none, typing, (*chain, cid))
@@ -393,7 +403,7 @@ class _Builder:
             if form == "from":
                 # dunder names (`__all__`, `__version__`) are not re-imported; the top-level package is not imported
                 # into its own `__init__` (self-reference)
-                avail = [nm for nm in self.modenvs[j] if not is_dunder(nm) and not (nm == TOP and is_top_init)]
+                avail = [nm for nm, r in self.modenvs[j].items() if not is_dunder(nm) and not (is_top_init and self.is_top_ref(r))]
                 if not avail:
                     continue
                 names = []
@@ -450,7 +460,7 @@ class _Builder:
                 exported = self.mods[j].get("_all")
                 if exported is None:
                     exported = [nm for nm in src if not nm.startswith("_")]
-                if any(nm in env for nm in exported) or (is_top_init and TOP in exported):
+                if any(nm in env for nm in exported) or (is_top_init and any(self.is_top_ref(src[nm]) for nm in exported)):
                     continue
                 for nm in exported:
                     env[nm] = src[nm]
